@@ -124,13 +124,39 @@ detail = str([(f.get('check'), f.get('case'), f.get('got')) for f in d['failures
 """
 
 
+def static_named_mapping():
+    """Every construction of a Named*Output takes its name -> index mapping from the numbering of the id manager the engine
+    used (`<...>.id_manager.free_betas.indices` / `self.free_betas.indices`), not from a numbering computed locally."""
+    from pyvc.driver import Extra
+    from pyvc.repo import get_repo
+    t0 = time.time()
+    repo = get_repo()
+    sites, odd = 0, []
+    for mname, mi in repo.modules.items():
+        if mname.endswith('function_output'):
+            continue
+        for c in ast.walk(mi.tree):
+            if isinstance(c, ast.Call) and ast.unparse(c.func).split('.')[-1] in ('NamedBiogemeFunctionOutput', 'NamedBiogemeDisaggregateFunctionOutput'):
+                sites += 1
+                m = next((k.value for k in c.keywords if k.arg == 'mapping'), c.args[1] if len(c.args) > 1 else None)
+                txt = ast.unparse(m) if m is not None else ''
+                if not txt.endswith('free_betas.indices'):
+                    odd.append(f'{mi.file}:{c.lineno}: mapping={txt[:60]}')
+    name = 'C02:static:named-outputs:mapping-is-the-numbering-of-the-id-manager'
+    if sites == 0:
+        return [Extra(name, 'static', 'unknown', 'ast-static', 0.0, 'no construction of a named output found')]
+    # another expression is not a defect by itself: unknown, decided by the replay (named outputs under a shared numbering)
+    return [Extra(name, 'static', 'discharged' if not odd else 'unknown', 'ast-static', round(time.time() - t0, 4),
+                  f'{sites} constructions inspected' + ('' if not odd else '; not recognised: ' + '; '.join(odd[:3])), {'sites': odd} if odd else None)]
+
+
 def extra(tier, seed):
     from pyvc.bounded import run_native
     from contracts import m1_static
-    out = static_named_outputs() + static_fresh_workspaces() + m1_static.extras('C02')
+    out = static_named_outputs() + static_fresh_workspaces() + static_named_mapping() + m1_static.extras('C02')
     out.append(run_native('C02:bounded:entry-points', 'm1_entrypoints.py', [], bound='1 cross-sectional model (2 free parameters, 4 rows) x scaled x hessian x bhhh x save_iterations; wrong lengths 0/1/3 -> ValueError; batch -> BiogemeError; 1 panel model (2 individuals) whose individual map is made stale after construction; debug logging on'))
     out.append(run_native('C02:bounded:outputs-native', 'c02_outputs_native.py', [],
-                          bound='unique_entry for K in 1..3 incl. zero gradients; named outputs under 3 name->index maps'))
+                          bound='unique_entry for K in 1..3 incl. zero gradients; named outputs under 3 name->index maps; named outputs of an auxiliary formula sharing the numbering of a BIOGEME object (aggregated and per observation)'))
     out.append(run_native('C02:bounded:output-histories', 'c02_sequences.py', [],
                           bound='binary logit, 12 rows: all orders of 3 evaluation points x scaled/unscaled; every kept output re-checked against closed forms'))
     out.append(run_native('C02:bounded:derivatives', 'c02_derivatives.py', [tier, str(seed)],
